@@ -24,12 +24,13 @@ type Gen struct {
 	Crons   []string
 	W       map[string]int // weight per request kind
 	// Timeouts offered for new promises, relative to "now" (ms); negative = already past
-	TimeoutDeltas []int64
-	ClaimTtls     []int // leases offered to ClaimTask (nil = default pool)
-	RouteOneIn    int   // a created promise carries a routing tag with probability 1/RouteOneIn (0 = never)
-	RouteTags     []string
-	PastTimeouts  bool // allow create with timeout <= now (F13)
-	Excluded      map[string]int
+	TimeoutDeltas   []int64
+	SchedRouteOneIn int   // a created schedule's promise tags route with probability 1/n (0 = never)
+	ClaimTtls       []int // leases offered to ClaimTask (nil = default pool)
+	RouteOneIn      int   // a created promise carries a routing tag with probability 1/RouteOneIn (0 = never)
+	RouteTags       []string
+	PastTimeouts    bool // allow create with timeout <= now (F13)
+	Excluded        map[string]int
 	// dispatched (task id, counter) pairs seen so far: claims prefer them
 	Dispatched func() [][2]any
 }
@@ -184,6 +185,10 @@ func (g *Gen) Req(now int64) *t_api.Request {
 		ptags := map[string]string{}
 		if g.D.OneIn(3, "ptag") {
 			ptags["a"] = "1"
+		}
+		if g.SchedRouteOneIn > 0 && g.D.OneIn(g.SchedRouteOneIn, "proute") {
+			// the promises of this schedule route: each firing creates promise + task through the create-with-task path
+			ptags["resonate:invoke"] = g.pick(g.RouteTags, "proutetag")
 		}
 		return &t_api.Request{Kind: t_api.CreateSchedule, CreateSchedule: &t_api.CreateScheduleRequest{Id: id, Description: "d", Cron: g.pick(g.Crons, "cron"),
 			Tags: map[string]string{}, PromiseId: g.pick([]string{"{{.id}}.{{.timestamp}}", id + ".{{.timestamp}}", "x.{{.timestamp}}"}, "tmpl"), PromiseTimeout: int64(g.D.Int(1, 5, "ptimeout")) * 1000,
